@@ -102,6 +102,10 @@ pub struct LocalPt {
     /// the first step (half the maximum) lies ABOVE the step the error estimate settles at
     #[serde(default)]
     pub at_cap: bool,
+    /// start time (default 0.3); non-autonomous problems are also started at -0.9, so that stage times are negative and
+    /// the interval straddles zero
+    #[serde(default)]
+    pub t0: Option<f64>,
 }
 pub struct Local;
 impl Check for Local {
@@ -124,15 +128,21 @@ impl Check for Local {
                 for &tol in &[1e-3, 1e-4, 1e-5, 1e-6, 1e-7, 1e-8, 1e-9, 1e-10] {
                     for &c in &t.pick(vec![1.0, 0.25], vec![1.0, 0.5, 0.25]) {
                         for &u0_scale in &t.pick(vec![1.0], vec![1.0, 0.6]) {
-                            v.push(LocalPt { solver, problem: p.to_string(), tol, c, u0_scale, end_sweep: None, at_cap: false });
+                            v.push(LocalPt { solver, problem: p.to_string(), tol, c, u0_scale, end_sweep: None, at_cap: false, t0: None });
                         }
                     }
+                }
+            }
+            // non-autonomous problems from a negative start time
+            for p in ["gauss", "cost", "rot3:osc2.5+gauss"] {
+                for &tol in &[1e-4, 1e-7, 1e-10] {
+                    v.push(LocalPt { solver, problem: p.to_string(), tol, c: 1.0, u0_scale: 1.0, end_sweep: None, at_cap: false, t0: Some(-0.9) });
                 }
             }
             // the property's cap itself for states of size O(1): the estimator has to bring the step DOWN from the first one
             for p in ["lin+1", "logistic", "osc1", "rot2:cost+relax"] {
                 for &tol in &[1e-3, 1e-4, 1e-5, 1e-6, 1e-7, 1e-8, 1e-9, 1e-10] {
-                    v.push(LocalPt { solver, problem: p.to_string(), tol, c: 1.0, u0_scale: 1.0, end_sweep: None, at_cap: true });
+                    v.push(LocalPt { solver, problem: p.to_string(), tol, c: 1.0, u0_scale: 1.0, end_sweep: None, at_cap: true, t0: None });
                 }
             }
             // ... and with a large component at rest beside a moving one of amplitude 60 (the estimate has to see an error
@@ -140,14 +150,14 @@ impl Check for Local {
             // (a bounded solution: a growing one of amplitude 60 e^3 is beyond what the property's cap formula covers)
             for p in ["sum3:bigrest+osc1"] {
                 for &tol in &[1e-3, 1e-5, 1e-7, 1e-9] {
-                    v.push(LocalPt { solver, problem: p.to_string(), tol, c: 1.0, u0_scale: 60.0, end_sweep: None, at_cap: true });
+                    v.push(LocalPt { solver, problem: p.to_string(), tol, c: 1.0, u0_scale: 60.0, end_sweep: None, at_cap: true, t0: None });
                 }
             }
             // large minimum step x end times swept across one maximum step (the clipped final step and its neighbours)
             for p in ["lin+1", "osc1", "rot2:cost+relax"] {
                 for &q in &[0.5, 0.25] {
                     for j in 0..8 {
-                        v.push(LocalPt { solver, problem: p.to_string(), tol: 1e-5, c: 1.0, u0_scale: 1.0, end_sweep: Some((q, j)), at_cap: false });
+                        v.push(LocalPt { solver, problem: p.to_string(), tol: 1e-5, c: 1.0, u0_scale: 1.0, end_sweep: Some((q, j)), at_cap: false, t0: None });
                     }
                 }
             }
@@ -156,7 +166,7 @@ impl Check for Local {
             for p in LARGE {
                 for &tol in &t.pick(vec![1e-4, 1e-7], vec![1e-3, 1e-5, 1e-7, 1e-9]) {
                     for &u0_scale in &t.pick(vec![60.0], vec![60.0, 2000.0]) {
-                        v.push(LocalPt { solver, problem: p.to_string(), tol, c: 1.0, u0_scale, end_sweep: None, at_cap: false });
+                        v.push(LocalPt { solver, problem: p.to_string(), tol, c: 1.0, u0_scale, end_sweep: None, at_cap: false, t0: None });
                     }
                 }
             }
@@ -171,7 +181,7 @@ impl Check for Local {
     fn run(&self, p: &LocalPt) -> Outcome {
         let mut o = Outcome::new();
         let prob = scaled(&problem(&p.problem), p.u0_scale);
-        let t0 = 0.3;
+        let t0 = p.t0.unwrap_or(0.3);
         // (points at the property's own cap run over 3/L: a growing solution reaches e^3 times its initial size)
         let horizon = if p.at_cap { 3.0 } else { 2.0 };
         let l = prob.lipschitz(t0, t0 + horizon).max(0.5);
